@@ -121,6 +121,32 @@ def run_one(args):
         out["hasspec"] = {"tid": tid, "events": s.ev["hasspec"]}
     if "search" in wanted:
         out["search"] = s.search_trace(tid)
+    if "spec" in wanted:
+        ev = [{"op": "outcome", "kind": out["outcome"].split(":")[1] if out["outcome"].startswith("error") else out["outcome"]}]
+        nspecs = 0
+        if outcome == "spec":
+            max_n = 6 if alph == "ab" else 5
+            ev += s.spec_events(spec, max_n=max_n)
+            nspecs += 1
+            if fl != "forest" and not pack.iterative:
+                # the 'smallest' option on the same universe
+                from ..session import _ACTIVE
+                import comb_spec_searcher.tree_searcher as ts
+
+                _ACTIVE.append(s)
+                old = ts.time
+                ts.time = s.tick
+                try:
+                    spec2 = s.searcher.get_specification(minimization_time_limit=0, smallest=True)
+                    ev += s.spec_events(spec2, max_n=max_n)
+                    nspecs += 1
+                except Exception as e:
+                    ev.append({"op": "outcome", "kind": "smallest:" + type(e).__name__})
+                finally:
+                    ts.time = old
+                    _ACTIVE.pop()
+        out["spec"] = s.spec_trace(tid, ev)
+        out["nspecs"] = nspecs
     return out
 
 
